@@ -303,14 +303,14 @@ func (b *builder) buildRule(ev *Event, ruleID string, depth int) *ProofNode {
 				partial = true
 				continue
 			}
+			var sub []*ProofNode
 			if !isGround(fact) && groundUpToWildcards(fact) {
 				// The body atom has wildcards, so the recorded premise is a
 				// pattern. Any stored fact matching it supports the rule firing.
-				if match, ok := firstMatch(b.store, fact); ok {
-					fact = match
-				}
+				sub = b.buildMatching(fact, depth+1)
+			} else {
+				sub = b.build(fact, depth+1)
 			}
-			sub := b.build(fact, depth+1)
 			if len(sub) == 0 {
 				partial = true
 				continue
@@ -442,17 +442,33 @@ func hasPartial(n *ProofNode, seen map[*ProofNode]bool) bool {
 	return false
 }
 
-// firstMatch returns a stored fact that matches the pattern.
-func firstMatch(store factstore.ReadOnlyFactStore, pattern ast.Atom) (ast.Atom, bool) {
-	var match ast.Atom
-	found := false
-	store.GetFacts(pattern, func(f ast.Atom) error {
-		if !found {
-			match, found = f, true
-		}
+// buildMatching builds proofs for a stored fact that matches the pattern. The
+// order in which a store yields facts is unspecified, and a match may be the
+// goal that is being proved (p(X) :- p(_)), so a match with a complete proof
+// is preferred over one whose proof is cut.
+func (b *builder) buildMatching(pattern ast.Atom, depth int) []*ProofNode {
+	var matches []ast.Atom
+	b.store.GetFacts(pattern, func(f ast.Atom) error {
+		matches = append(matches, f)
 		return nil
 	})
-	return match, found
+	var fallback []*ProofNode
+	for i, m := range matches {
+		if i > 0 && b.steps > maxSearchSteps {
+			break
+		}
+		sub := b.build(m, depth)
+		if len(sub) == 0 {
+			continue
+		}
+		if !hasPartial(sub[0], make(map[*ProofNode]bool)) {
+			return sub
+		}
+		if fallback == nil {
+			fallback = sub
+		}
+	}
+	return fallback
 }
 
 // applyToNeg applies a substitution (the rule's solution) to a negated atom.
